@@ -317,7 +317,7 @@ def run(tier, replay=None):
     ctx = Ctx('C20', tier)
     quick = tier == 'quick'
     rnd = random.Random(ctx.seed * 7919 + 20)
-    ncpu = min(16, os.cpu_count() or 4)
+    ncpu = min(8, os.cpu_count() or 4)
     # worker processes are forked before any thread exists
     pool = multiprocessing.get_context('fork').Pool(ncpu)
     try:
@@ -337,8 +337,10 @@ def _run(ctx, quick, rnd, pool, X, R):
     for name, mc in sweeps:
         jobs['auth_' + name] = ex.submit(check_and_dump_auth, mc, W)
     jobs['auth_pinned'] = ex.submit(tlc.run_tlc, SPEC, 'Auth', 'MC_Auth_pinned.cfg', workers=W)
+    # (no -coverage here: it slows this model down by an order of magnitude; vacuity of the
+    # histories is checked on the dumped histories below)
     jobs['sess_mc'] = ex.submit(tlc.model_check, SPEC, 'Sessions', 'MC_Sessions.cfg' if quick else 'MC_Sessions_thorough.cfg',
-                                coverage=True, workers=W if quick else 8, timeout=3000)
+                                workers=W if quick else 8, timeout=3000)
     jobs['sess_nofp'] = ex.submit(tlc.run_tlc, SPEC, 'Sessions', 'MC_Sessions_nofp.cfg', workers=2)
     jobs['sess_hist'] = ex.submit(dump_session_histories, 'HIST_Sessions.cfg' if quick else 'HIST_Sessions_thorough.cfg', W)
     jobs['vh_mc'] = ex.submit(tlc.dump_states, SPEC, 'VHost', 'MC_VHost.cfg', workers=1)      # checks the invariants too
